@@ -1,6 +1,6 @@
 """C05 -- lifting schemes balance the probability flow.
 
-Engine C: every integer derivative table (values -3..3, sum zero, a positive entry) of 2..4 (quick) / 2..6 (thorough)
+Engine C: every integer derivative table (values -3..3, sum zero, a positive entry) of 2..5 (quick) / 2..6 (thorough)
 entries in every order, every positive entry as the active unit, the three real lifting classes, with the uniform
 draws scripted on a midpoint grid that never touches a breakpoint: the counts are exact integers, so global balance
     sum_a q_a * #{draws selecting k | a active} == (grid points per unit) * |q_k|
@@ -189,7 +189,7 @@ FLOAT_TABLES = [
 
 def tables(ctx):
     vals = [-3, -2, -1, 0, 1, 2, 3]
-    nmax = 6 if ctx.thorough else 4
+    nmax = 6 if ctx.thorough else 5
     for n in range(2, nmax + 1):
         for tab in itertools.product(vals, repeat=n):
             if sum(tab) == 0 and max(tab) > 0:
@@ -238,7 +238,7 @@ def run(ctx):
                 "plus the end points {0, 1-2^-53}; %d float tables with breakpoints located by bisection. "
                 "evaluations = real insert*/get_active_identifier executions; distinct_nontrivial = distinct "
                 "(scheme, size, has zero entry, several positive, several negative) regimes"
-                % (6 if ctx.thorough else 4, M, len(FLOAT_TABLES)),
+                % (6 if ctx.thorough else 5, M, len(FLOAT_TABLES)),
         "samples": [enc(("int", SCHEMES[0], (2, 0, -1, -1))), enc(("float", SCHEMES[2], FLOAT_TABLES[0]))],
         "exhaustive": True,
     }
@@ -250,5 +250,5 @@ def run(ctx):
 
 def replay(ctx, case):
     c = dec(case["case"])
-    _, fails = check_case(c)
+    _, fails = par.guarded(check_case)(c)
     return sorted(set(k for k, _ in fails)) or None
